@@ -15,13 +15,15 @@
    through to the Editor: C06_wrap_stable_lf (the lines, joined by U+000A with or without a
    trailing one, wrap to the same lines), C06_wrap_twice (Wrap(w) of the result of Wrap(w) is
    that result, byte for byte) and C06_trailing_separator (the result ends with U+000A exactly
-   when the text did) - all under the safe-cluster condition. For other separators the
-   re-joined form depends on the separator (self-overlapping separators; a separator "-"
-   swallows the continuation hyphens) and is judged on every generated case by check_C06 and
-   the wrap-twice cases. *)
+   when the text did) - all under the safe-cluster condition; and the same for every line
+   separator that is a single code point other than the space and the hyphen
+   (C06_wrap_stable_single_separator) and, through the Editor, a single ASCII character
+   (C06_wrap_twice_ascii_separator). For other separators the re-joined form depends on the
+   separator (self-overlapping separators; a separator "-" swallows the continuation hyphens)
+   and is judged on every generated case by check_C06 and the wrap-twice cases. *)
 From Coq Require Import List Bool ZArith Lia.
 Import ListNotations.
-From Rosed Require Import Base.Res Base.ListX Gem.Segment Gem.GString Model.Tb Model.Manip Model.Table Base.Str Proofs.SeamP Proofs.C13P Proofs.C06P Proofs.C06Q Proofs.C06R Proofs.C06S Proofs.SubaddP Proofs.C06T Proofs.C04P Proofs.C07Q Proofs.C06U Proofs.C06V Base.Utf8 Model.Options Model.Editor Model.Ops Base.Cls Inst.Go Inst.GoOk.
+From Rosed Require Import Base.Res Base.ListX Gem.Segment Gem.GString Model.Tb Model.Manip Model.Table Base.Str Proofs.SeamP Proofs.C13P Proofs.C06P Proofs.C06Q Proofs.C06R Proofs.C06S Proofs.SubaddP Proofs.C06T Proofs.C04P Proofs.C07Q Proofs.C06U Proofs.C06V Proofs.C06W Proofs.C06X Base.Utf8 Model.Options Model.Editor Model.Ops Base.Cls Inst.Go Inst.GoOk.
 Open Scope Z_scope.
 
 Theorem C06_clamp : forall (C : Classifier) text w sep, wrap text w sep = wrap text (Z.max w 2) sep.
@@ -118,7 +120,7 @@ Theorem C06_wrap_twice : forall (C : Classifier) (K : ClassifierOk) (U : Upper) 
   scalars rs -> o_linesep (with_defaults o) = [10] -> o_preserve (with_defaults o) = false ->
   safe_text (replace_all rs [10] [SP]) ->
   wrap_opts w o (Ed (encode rs) o0 ref) = Ok e1 -> wrap_opts w o e1 = Ok e1.
-Proof. intros C K U. exact wrap_editor_stable. Qed.
+Proof. intros C K U. exact C06V.wrap_editor_stable. Qed.
 Print Assumptions C06_wrap_twice.
 
 (* ... and the result ends with the line separator exactly when the text did *)
@@ -126,8 +128,32 @@ Theorem C06_trailing_separator : forall (C : Classifier) (K : ClassifierOk) (U :
   scalars rs -> o_linesep (with_defaults o) = [10] -> o_preserve (with_defaults o) = false ->
   safe_text (replace_all rs [10] [SP]) ->
   wrap_opts w o (Ed (encode rs) o0 ref) = Ok e1 -> has_suffix (e_text e1) [10] = has_suffix (encode rs) [10].
-Proof. intros C K U. exact wrap_editor_trailing. Qed.
+Proof. intros C K U. exact C06V.wrap_editor_trailing. Qed.
 Print Assumptions C06_trailing_separator.
+
+(* the same for every line separator that is one code point other than U+0020 and U+002D
+   (tls s tr = if tr then [s] else []) *)
+Theorem C06_wrap_stable_single_separator : forall (C : Classifier) (K : ClassifierOk) (U : Upper) s, s <> SP -> s <> HYPHEN ->
+  forall text w ct b tr,
+  safe_text (replace_all text [s] [SP]) -> collapse_space text [s] = Ok ct -> ct <> [] ->
+  wrap text w [s] = Ok b -> b_lines b <> [] ->
+  exists b', wrap (join [s] (b_lines b) ++ tls s tr) w [s] = Ok b' /\ b_lines b' = b_lines b.
+Proof. intros C K U. exact wrap_stable_sep. Qed.
+Print Assumptions C06_wrap_stable_single_separator.
+
+(* ... and through the Editor for a single ASCII character (tab, "|", CR, ...) *)
+Theorem C06_wrap_twice_ascii_separator : forall (C : Classifier) (K : ClassifierOk) (U : Upper) s, 0 <= s < 128 -> s <> SP -> s <> HYPHEN ->
+  forall rs o0 ref o w e1,
+  scalars rs -> o_linesep (with_defaults o) = [s] -> o_preserve (with_defaults o) = false ->
+  safe_text (replace_all rs [s] [SP]) ->
+  wrap_opts w o (Ed (encode rs) o0 ref) = Ok e1 ->
+  wrap_opts w o e1 = Ok e1 /\ has_suffix (e_text e1) [s] = has_suffix (encode rs) [s].
+Proof.
+  intros C K U s H1 H2 H3 rs o0 ref o w e1 Hs Hl Hp Hsafe Hw.
+  exact (conj (C06X.wrap_editor_stable s H1 H2 H3 rs o0 ref o w e1 Hs Hl Hp Hsafe Hw)
+              (C06X.wrap_editor_trailing s H1 H2 H3 rs o0 ref o w e1 Hs Hl Hp Hsafe Hw)).
+Qed.
+Print Assumptions C06_wrap_twice_ascii_separator.
 
 (* the premises of C06_wrap_twice can be met with the classifier regenerated from the Go source:
    "e" U+0301 "b cd  a" LF wrapped to width 4 is "e" U+0301 "b" LF "cd a" LF *)
